@@ -7,6 +7,7 @@ import (
 	"sort"
 
 	"github.com/tellor-io/layer/x/oracle/types"
+	regtypes "github.com/tellor-io/layer/x/registry/types"
 
 	cosmomath "cosmossdk.io/math"
 )
@@ -16,7 +17,8 @@ func (k Keeper) WeightedMedian(ctx context.Context, reports []types.MicroReport,
 	values := make(map[string]cosmomath.LegacyDec)
 
 	for _, r := range reports {
-		val, ok := new(big.Int).SetString(r.Value, 16)
+		// report values are validated with an optional 0x prefix; parse without it
+		val, ok := new(big.Int).SetString(regtypes.Remove0xPrefix(r.Value), 16)
 		if !ok {
 			k.Logger(ctx).Error("WeightedMedian", "error", "failed to parse value")
 			return nil, errors.New("failed to parse value")
@@ -43,7 +45,8 @@ func (k Keeper) WeightedMedian(ctx context.Context, reports []types.MicroReport,
 		if cumulativePower.BigInt().Cmp(halfTotalPower.BigInt()) >= 0 {
 			medianReport.ReporterPower = uint64(totalReporterPower.TruncateInt64())
 			medianReport.AggregateReporter = s.Reporter
-			medianReport.AggregateValue = s.Value
+			// aggregate values are consumed as plain hex (bridge attestations, deposit claims)
+			medianReport.AggregateValue = regtypes.Remove0xPrefix(s.Value)
 			medianReport.QueryId = s.QueryId
 			medianReport.AggregateReportIndex = uint64(i)
 			medianReport.MicroHeight = s.BlockNumber
